@@ -154,6 +154,14 @@ def safe_run(sub, case):
                 + traceback.format_exc()) from exc
         out = Outcome()
         out.nontrivial = True
+        if type(exc).__name__ == "LinAlgError" and "SVD did not converge" in str(exc):
+            # LAPACK's divide-and-conquer SVD (gesdd, reached through tensornetwork's numpy back-end) occasionally
+            # reports non-convergence on well-conditioned, finite input; the same case passes when repeated (observed 1 in
+            # 5 repetitions of one input, DESIGN 10.12).  An availability flake of the numerical library, not a statement
+            # about returned results: counted as inconclusive and labelled, never as a pass of the oracle.
+            out.inconclusive = True
+            out.label("lapack-svd-did-not-converge")
+            return out
         out.fail(sig, f"{type(exc).__name__}: {exc}")
     if out is None:
         raise HarnessError(f"{sub.name}.run returned None")
